@@ -283,6 +283,19 @@ def gen_opt(tier, R, kind='opt'):
                       f"(ter ternaryCondition {L(b(True))} {V} {L(num(0.0))})", f"(call {s(fname)} {V})"):
                 out.append(f"({kind} _ {env([('x', num(2.0))], OPT_FNS_S)} {e})")
                 out.append(f"({kind} _ {env([('x', num(2.0)), (fname, num(5.0))], OPT_FNS_S)} {e})")
+    # constant sub-trees whose value is a special one (-0, NaN, +-inf, '', [], a numeric string) under a consumer that is not constant and can tell the difference (division, concatenation,
+    # comparison, a function that returns its arguments): what folding puts into the tree must be the very value evaluation would have produced there
+    M0 = f"(un minus {L(num(0.0))})"
+    specials = [M0, f"(bin multiply {L(num(0.0))} {L(num(-1.0))})", f"(bin mod {L(num(-5.0))} {L(num(5.0))})", f"(bin divide {L(num(0.0))} {L(num(0.0))})", f"(bin divide {L(num(1.0))} {L(num(0.0))})",
+                f"(bin divide {L(num(-1.0))} {L(num(0.0))})", f"(bin plus {L(s(''))} {L(s(''))})", f"(bin plus (arr) (arr))", f"(bin plus {L(s('1'))} {L(s('0'))})", f"(un minus {M0})", f"(arr {M0})",
+                f"(call {s('echo')} {M0})", f"(call {s('p1')} {M0})"]
+    for sp in specials:
+        for cons in (lambda e: f"(bin divide {X} {e})", lambda e: f"(bin divide {L(num(1.0))} (bin plus {e} (bin multiply {X} {L(num(0.0))})))", lambda e: f"(bin plus {e} {X})", lambda e: f"(bin less {e} {X})",
+                     lambda e: f"(bin equal {e} {X})", lambda e: f"(call {s('echo')} {e} {X})", lambda e: f"(arr {e} {X})", lambda e: f"(bin plus (arr {e}) (arr {X}))", lambda e: f"(bin multiply {e} {X})",
+                     lambda e: f"(ter ternaryCondition {X} {e} {L(num(1.0))})"):
+            for xv in (num(1.0), num(-1.0), num(0.0), s(''), b(True), None):
+                binds = [('x', xv)] if xv is not None else []
+                out.append(f"({kind} _ {env(binds, OPT_FNS_S)} {cons(sp)})")
     # wide calls: a pure variadic function with 99, 100, 101, 150 and 300 literal arguments must fold like a narrow one
     for cnt in (99, 100, 101, 150, 300):
         args = " ".join(L(num(float(j % 9))) for j in range(cnt))
@@ -303,6 +316,29 @@ def gen_opt(tier, R, kind='opt'):
                 binds.append(('t', b(R.random() < 0.5)))
             out.append(f"({kind} _ {env(binds, OPT_FNS_S)} {e})")
             i += 1
+    return out
+
+
+def gen_rebind(tier, R):
+    """C03/C19: the binding execute sees is the one the latest add_variable calls established - an environment that went through an earlier binding of the same names (other value of the kind,
+    a value `=` to the new one without being identical, another kind, another spelling of the name, removed in between) evaluates like a fresh one"""
+    vals = [num(1.0), s("1"), b(True), num(0.0), num(-0.0), b(False), s("0"), s("1.0"), arr(num(1.0)), arr(s("1")), arr(b(True)), num(2.0), s("a"), arr(), s(""), num(NAN)]
+    X = lambda n: f"(var {s(n)})"
+    L = lambda v: f"(lit {v})"
+    exprs = [lambda n: X(n), lambda n: f"(bin plus {X(n)} {L(s('a'))})", lambda n: f"(bin divide {L(num(1.0))} {X(n)})", lambda n: f"(bin less {X(n)} {L(s('abc'))})", lambda n: f"(bin xor {X(n)} {L(b(True))})",
+             lambda n: f"(arr {X(n)})", lambda n: f"(un minus {X(n)})", lambda n: f"(un not {X(n)})", lambda n: f"(bin equal {X(n)} {L(num(1.0))})", lambda n: f"(bin plus {X(n)} {X(n)})",
+             lambda n: f"(bin plus {X(n)} {L(arr())})", lambda n: f"(ter ternaryCondition {X(n)} {L(num(1.0))} {L(num(2.0))})", lambda n: f"(bin and {X(n)} {X('y')})"]
+    out = []
+    names = [("x", "x"), ("x", "X"), ("Län", "LÄN"), ("ω", "Ω")]
+    for v1 in vals:
+        for v2 in vals:
+            for i, ex in enumerate(exprs):
+                n1, n2 = names[(i + len(out)) % len(names)]
+                out.append(f"(rebind _ (vars ({s(n1)} {v1}) ({s('y')} {b(True)})) (vars ({s(n2)} {v2})) {ex(n1)})")
+    for _ in range(500 if tier == 'quick' else 20000):
+        n1, n2 = R.choice(names)
+        e = R.choice(exprs)(R.choice([n1, n2]))
+        out.append(f"(rebind _ (vars ({s(n1)} {R.choice(vals)}) ({s(n2)} {R.choice(vals)})) (vars ({s(R.choice([n1, n2]))} {R.choice(vals)})) {e})")
     return out
 
 
